@@ -279,8 +279,10 @@ def check(ctx: Ctx) -> None:
                   construct="bar re-quantisation may extend notes", message=short(c), file=fi.file, node=c)
         g = next((a for a in ancestors(c) if isinstance(a, ast.If)), None)
         flagp = params[2] if len(params) > 2 else None
-        ctx.check(g is not None and isinstance(g.test, ast.Name) and g.test.id == flagp, "SHORTEN", f"{FN}: re-quantisation only when requested",
-                  function=FN, construct="re-quantisation not controlled by its flag", message="", file=fi.file, node=c)
+        from ..astutil import extra_conditions
+        more = extra_conditions(c, g.test if g is not None else None)
+        ctx.check(g is not None and isinstance(g.test, ast.Name) and g.test.id == flagp and not more, "SHORTEN", f"{FN}: re-quantisation exactly when requested",
+                  function=FN, construct="re-quantisation not controlled by its flag alone", message=f"further conditions: {more}", file=fi.file, node=c)
         recv = call_method(c)[0]
         ctx.check(isinstance(recv, ast.Name) and recv.id not in input_vars, "SHORTEN", f"{FN}: re-quantisation applies to the piece, not the input",
                   function=FN, construct="re-quantisation applied to an input sequence", message="", file=fi.file, node=c)
